@@ -580,6 +580,16 @@ func (am *AccountingManager) pendingRecordProcessor() {
 
 // processPendingRecord attempts to send a pending record
 func (am *AccountingManager) processPendingRecord(record *PendingAcctRecord) {
+	// A record is handed over both through the queue and through the retry
+	// scan; whichever comes second must not send it again once it has been
+	// delivered (or abandoned).
+	am.pendingMu.RLock()
+	_, stillPending := am.pendingRecords[record.ID]
+	am.pendingMu.RUnlock()
+	if !stillPending {
+		return
+	}
+
 	ctx, cancel := context.WithTimeout(am.ctx, 5*time.Second)
 	defer cancel()
 
